@@ -2,6 +2,8 @@
 \* Parameters of MC_Case (overwritten by the check)
 LicIds == <<"MIT", "GPL-2.0", "GPL-2.0-or-later", "Apache-2.0">>
 ExcIds == <<"Bison-exception-2.2", "Classpath-exception-2.0">>
+\* per license id: a term that matches it only THROUGH the version range (a later/earlier family member), or the id itself
+LicRel == <<"MIT", "GPL-3.0-only+", "GPL-3.0-only", "Apache-1.0+">>
 MixK   == 0
 P1 == "Zlib"
 P2 == "ISC"
